@@ -95,7 +95,7 @@ def c14RowOk (r : OpFact) : Bool :=
 
 /-! ### C07: goroutines that run user code are recovered -/
 
-def knownUnrecovered : List String := ["Future"]
+def knownUnrecovered : List String := []
 
 def c07RowOk (r : OpFact) : Bool :=
   r.goStmts.all (fun g => !(g.kind == "go" && g.callsUser) || g.recovered || knownUnrecovered.contains r.name)
